@@ -22,6 +22,15 @@ def _window_args(f):
     return f.get("tag") == "window-args-ignored"
 
 
+@known.matcher("clock-set-back")
+def _clock_set_back(f):
+    """exactly this history: a positive period, one collection, then a hit whose time lies at least a whole period BEFORE it"""
+    c = f.get("case") or {}
+    hits = c.get("hit_times_ms") or []
+    return f.get("tag") == "stale-hit-positive-period" and len(hits) == 2 and c.get("fire_period_ms", 0) > 0 \
+        and hits[0] - hits[1] >= c["fire_period_ms"]
+
+
 def ref_int(v, dflt):
     """int(config value) as documented: numbers as they are, decimal text parsed, anything else -> default."""
     if v is None:
@@ -159,6 +168,30 @@ def window_args_case(ctx, world, clock):
     if world.push.snapshots:
         ctx.fail("a tracepoint configured with window_start=1, window_end=2 (any unit: the hit is in 2023) collected; "
                  "window arguments are not copied into the action", j, tag="window-args-ignored")
+
+
+def clock_set_back_case(ctx, world, clock):
+    """A positive period, a collection, then a hit that carries a time MORE than a period before it (the clock was set back, or the
+    thread read the clock long before it claimed its fire): the two collections would be more than a period apart - the limits allow
+    the hit, so it has to collect."""
+    from deep.api.tracepoint.trigger import LocationAction, Trigger, LineLocation, Location
+    for period_ms, first_ms, second_ms in ((1000, 10_000, 5_000), (1, 50, 2)):
+        action = LocationAction("tp-back", None, {"frame_type": "no_frame", "watches": [], "fire_count": "-1", "fire_period": str(period_ms)},
+                                LocationAction.ActionType.Snapshot)
+        world.install([Trigger(LineLocation("m.py", 7, Location.Position.START), [action])])
+        world.push.snapshots.clear()
+        got = []
+        for t_ms in (first_ms, second_ms):
+            clock.now = e2.BASE_NS + t_ms * MS
+            before = len(world.push.snapshots)
+            world.event(e2.mk_frame("/app/m.py", "f", 7, {}), "line")
+            got.append(len(world.push.snapshots) > before)
+        j = dict(fire_period_ms=period_ms, hit_times_ms=[first_ms, second_ms], collected=got)
+        ctx.case(j, nontrivial=True, bucket="clock-set-back")
+        if got != [True, True]:
+            ctx.fail("fire_period=%d ms, hits at +%d ms and then at +%d ms (%d ms BEFORE the first): collected %r; the two collections are "
+                     "more than a period apart, the limits allow the second hit" % (period_ms, first_ms, second_ms, first_ms - second_ms, got),
+                     j, kind="history", tag="stale-hit-positive-period")
 
 
 # ----------------------------------------------------------------------------- forced schedules
@@ -367,6 +400,7 @@ def run(ctx):
     try:
         seq_cases(ctx, world, clock, 2500 if ctx.thorough else 400)
         window_args_case(ctx, world, clock)
+        clock_set_back_case(ctx, world, clock)
         conc_cases(ctx, world, clock, 400 if ctx.thorough else 60)
         inner_race(ctx, world, clock, 30 if ctx.thorough else 6)
     finally:
